@@ -7,25 +7,218 @@ written (generic part of C04 / C09 / C16)
 namespace Model
 open Py Spec
 
+/-! ## decimal rendering, de-armoring -/
+
+theorem pyInt10_natToDec_all :
+    (List.range 101).all (fun n => decide (pyInt10 (natToDec n) = some (n : Int))) = true := by
+  decide +kernel
+
 /-- decimal rendering is read back by `int()` (fragment numbers, fill bits, sequence ids) -/
 theorem pyInt10_natToDec (n : Nat) (h : n ≤ 100) : pyInt10 (natToDec n) = some (n : Int) := by
-  sorry
+  have := List.all_eq_true.mp pyInt10_natToDec_all n (List.mem_range.mpr (by omega))
+  simpa using this
+
+theorem natToDec_digits_all :
+    (List.range 101).all (fun n => (natToDec n).all isDigit) = true := by
+  decide +kernel
 
 /-- decimal digits only -/
 theorem natToDec_digits (n : Nat) (h : n ≤ 100) : ∀ b ∈ natToDec n, isDigit b = true := by
-  sorry
+  have := List.all_eq_true.mp natToDec_digits_all n (List.mem_range.mpr (by omega))
+  exact List.all_eq_true.mp this
+
+theorem natToDecAux_ne_nil (fuel n : Nat) (acc : Bytes) (h : acc ≠ []) : natToDecAux fuel n acc ≠ [] := by
+  induction fuel generalizing n acc with
+  | zero => simpa [natToDecAux] using h
+  | succ f ih =>
+    unfold natToDecAux
+    split
+    · simp
+    · exact ih _ _ (by simp)
 
 theorem natToDec_ne_nil (n : Nat) : natToDec n ≠ [] := by
-  sorry
+  unfold natToDec natToDecAux
+  split
+  · simp
+  · exact natToDecAux_ne_nil _ _ _ (by simp)
 
 /-- one-digit numbers render as one character -/
 theorem natToDec_length_one (n : Nat) (h : n ≤ 9) : (natToDec n).length = 1 := by
-  sorry
+  have : n < 10 := by omega
+  simp [natToDec, natToDecAux, this]
 
-/-- de-armoring never fails on characters of the armoring alphabet with 0–5 fill bits -/
-theorem dearmor_ok (chunk : Bytes) (fill : Nat) (h : chunk.all isArmorChar = true) :
-    ∃ bits, dearmor chunk fill = .ok bits := by
-  sorry
+theorem dearmorAux_ok (fill : Nat) (hf : fill ≤ 5) (chunk : Bytes) (h : chunk.all isArmorChar = true) :
+    ∃ bits, dearmorAux (fill : Int) chunk = .ok bits := by
+  induction chunk with
+  | nil => exact ⟨[], rfl⟩
+  | cons c cs ih =>
+    simp only [List.all_cons, Bool.and_eq_true] at h
+    obtain ⟨hc, hcs⟩ := h
+    obtain ⟨r, hr⟩ := ih hcs
+    have hc' : 0x20 ≤ c ∧ c ≤ 0x7e := by
+      simp only [isArmorChar, Bool.or_eq_true, Bool.and_eq_true, decide_eq_true_eq] at hc
+      omega
+    unfold dearmorAux
+    rw [if_neg (by simpa using hc')]
+    simp only
+    split
+    · rw [if_neg (by omega), if_neg (by omega)]
+      exact ⟨_, rfl⟩
+    · rw [hr]; exact ⟨_, rfl⟩
+
+/-- de-armoring never fails on characters of the armoring alphabet with 0–5 fill bits.
+(The bound on `fill` is needed: `dearmor [48] (2^63 + 7)` is the `OverflowError` of `zfill`.) -/
+theorem dearmor_ok (chunk : Bytes) (fill : Nat) (h : chunk.all isArmorChar = true) (hf : fill ≤ 5) :
+    ∃ bits, dearmor chunk fill = .ok bits := dearmorAux_ok fill hf chunk h
+
+/-! ## parse ∘ render -/
+
+theorem strBytes_VDM : strBytes "VDM" = [86, 68, 77] := by decide
+theorem strBytes_VDO : strBytes "VDO" = [86, 68, 79] := by decide
+
+/-- bytes allowed between `!` and `*`: 7-bit and not `*` -/
+def bodyByte (b : Nat) : Prop := b < 128 ∧ b ≠ STAR
+
+theorem isAlnum_clean (c : Nat) (h : isAlnum c = true) : c < 128 ∧ c ≠ STAR ∧ c ≠ COMMA := by
+  simp only [isAlnum, Bool.or_eq_true, Bool.and_eq_true, decide_eq_true_eq] at h
+  simp only [STAR, COMMA]; omega
+
+theorem isDigit_clean (c : Nat) (h : isDigit c = true) : c < 128 ∧ c ≠ STAR ∧ c ≠ COMMA := by
+  simp only [isDigit, Bool.and_eq_true, decide_eq_true_eq] at h
+  have h' : (48 : Nat) ≤ c ∧ c ≤ (57 : Nat) := h
+  simp only [STAR, COMMA]; omega
+
+theorem isArmorChar_clean (c : Nat) (h : isArmorChar c = true) : c < 128 ∧ c ≠ STAR ∧ c ≠ COMMA := by
+  simp only [isArmorChar, Bool.or_eq_true, Bool.and_eq_true, decide_eq_true_eq] at h
+  simp only [STAR, COMMA]; omega
+
+theorem split_seven (a b c d e f g : Bytes) (ha : COMMA ∉ a) (hb : COMMA ∉ b) (hc : COMMA ∉ c)
+    (hd : COMMA ∉ d) (he : COMMA ∉ e) (hf : COMMA ∉ f) (hg : COMMA ∉ g) :
+    split COMMA (a ++ COMMA :: (b ++ COMMA :: (c ++ COMMA :: (d ++ COMMA :: (e ++ COMMA ::
+      (f ++ COMMA :: g)))))) = [a, b, c, d, e, f, g] := by
+  unfold split
+  rw [List.splitOn_append_cons_self_of_not_mem ha, List.splitOn_append_cons_self_of_not_mem hb,
+    List.splitOn_append_cons_self_of_not_mem hc, List.splitOn_append_cons_self_of_not_mem hd,
+    List.splitOn_append_cons_self_of_not_mem he, List.splitOn_append_cons_self_of_not_mem hf,
+    List.splitOn_eq_singleton hg]
+
+theorem chkToInt_eq (u hh : Bytes) (i j : Int) (hu : STAR ∉ u) (hh' : STAR ∉ hh)
+    (hi : pyInt10 u = some i) (hj : pyInt16 hh = some j) : chkToInt (u ++ [STAR] ++ hh) = (i, j) := by
+  have h1 : split STAR (u ++ [STAR] ++ hh) = [u, hh] := by
+    have : u ++ [STAR] ++ hh = u ++ STAR :: hh := by simp
+    rw [this, split, List.splitOn_append_cons_self_of_not_mem hu, List.splitOn_eq_singleton hh']
+  have h2 : (u ++ [STAR] ++ hh).isEmpty = false := by simp
+  unfold chkToInt
+  rw [h2, h1]
+  simp [hi, hj]
+
+/-- `NMEASentence.__init__` once the comma fields are known -/
+theorem nmeaInit_of_split (raw head last : Bytes) (mid : List Bytes) (cs : Nat) (fill check : Int)
+    (hs : split COMMA raw = head :: (mid ++ [last]))
+    (htalk : isAscii (slice head 1 3) = true) (htyp : isAscii (head.drop 3) = true)
+    (hchk : chkToInt last = (fill, check)) (hcs : computeChecksum raw = .ok cs) :
+    nmeaInit raw = .ok {
+      raw := raw, isAIS := false, delimiter := head.take 1,
+      talker := slice head 1 3, typ := head.drop 3, checksum := check, fillBits := fill,
+      isValid := (check == (cs : Int)), dataFields := mid } := by
+  have hl : (head :: (mid ++ [last])).getLast?.getD [] = last := by
+    rw [show head :: (mid ++ [last]) = (head :: mid) ++ [last] from rfl, List.getLast?_concat]; rfl
+  unfold nmeaInit
+  simp [hs, hl, decodeAscii, htalk, htyp, hchk, hcs, bind, Except.bind]
+
+theorem produceRaw_ais (k : NmeaConsts) (raw head : Bytes) (rest : List Bytes)
+    (hs : split COMMA raw = head :: rest)
+    (hcode : upper (head.drop 3) = strBytes "VDM" ∨ upper (head.drop 3) = strBytes "VDO") :
+    produceRaw k raw = aisInit k raw := by
+  simp only [produceRaw, hs, List.headD_cons]
+  split
+  · rfl
+  · rename_i h; exact absurd hcode h
+
+/-- `AISSentence.__init__` once `NMEASentence.__init__` succeeded with five well-formed data fields -/
+theorem aisInit_of_nmea (k : NmeaConsts) (raw : Bytes) (s0 : Sentence) (mf fn mid ch pl : Bytes)
+    (c n : Nat) (sq : Option Int) (bits : Bits)
+    (h0 : nmeaInit raw = .ok s0) (hdf : s0.dataFields = [mf, fn, mid, ch, pl])
+    (hc : pyInt10 mf = some (c : Int)) (hn : pyInt10 fn = some (n : Int))
+    (hsq : (mid = [] ∧ sq = none) ∨ (mid ≠ [] ∧ ∃ i, pyInt10 mid = some i ∧ sq = some i))
+    (hch : isAscii ch = true) (hpl : pl.length ≤ k.maxPayloadLen)
+    (hc1 : 1 ≤ c) (hc2 : c ≤ k.maxFragCnt) (hn1 : 1 ≤ n) (hn2 : n ≤ k.maxFragCnt)
+    (hb : dearmor pl s0.fillBits = .ok bits) :
+    aisInit k raw = .ok { s0 with
+      isAIS := true, fragCnt := c, fragNum := n, seqId := sq,
+      channel := ch, payload := pl, bits := bits, aisId := getInt bits 0 6 } := by
+  unfold aisInit
+  have e1 : ¬ (pl.length > k.maxPayloadLen) := by omega
+  have e2 : ¬ ((c : Int) > k.maxFragCnt ∨ (n : Int) > k.maxFragCnt) := by omega
+  have e3 : ¬ ((c : Int) < 1 ∨ (n : Int) < 1) := by omega
+  rcases hsq with ⟨rfl, rfl⟩ | ⟨hm, i, hi, rfl⟩
+  · simp only [h0, bind, Except.bind, hdf, List.take, hc, hn, hch, if_true, List.isEmpty_nil]
+    rw [if_neg e1, if_neg e2, if_neg e3, hb]
+  · have hm' : mid.isEmpty = false := by cases mid <;> simp_all
+    simp only [h0, bind, Except.bind, hdf, List.take, hc, hn, hch, if_true, hm', hi,
+      Bool.false_eq_true, if_false]
+    rw [if_neg e1, if_neg e2, if_neg e3, hb]
+
+theorem produce_of_plain (k : NmeaConsts) (raw : Bytes) (s : Sentence) (hne : raw ≠ [])
+    (hp : preProcess raw = .ok (raw, none)) (h : produceRaw k raw = .ok s) :
+    produce k raw = .ok s := by
+  unfold produce
+  have : raw.isEmpty = false := by cases raw <;> simp_all
+  simp [this, hp, h, bind, Except.bind]
+
+theorem renderFrag_eq (f : FragSpec) :
+    renderFrag f = (33 :: (f.talker ++ f.kind)) ++ COMMA :: (natToDec f.cnt ++ COMMA ::
+      (natToDec f.num ++ COMMA :: (seqBytes f.seq ++ COMMA :: (f.chan ++ COMMA :: (f.chunk ++ COMMA ::
+        (natToDec f.fill ++ [STAR] ++ hex2 (xorAll (fragBody f)))))))) := by
+  unfold renderFrag
+  generalize hex2 (xorAll (fragBody f)) = hh
+  simp [fragBody]
+
+/-- every byte is 7-bit and neither `*` nor `,` -/
+def Clean (l : Bytes) : Prop := ∀ b ∈ l, b < 128 ∧ b ≠ STAR ∧ b ≠ COMMA
+
+/-- every byte is 7-bit and not `*` -/
+def BodyOK (l : Bytes) : Prop := ∀ b ∈ l, b < 128 ∧ b ≠ STAR
+
+theorem Clean.bodyOK {l : Bytes} (h : Clean l) : BodyOK l := fun b hb => ⟨(h b hb).1, (h b hb).2.1⟩
+theorem Clean.no_comma {l : Bytes} (h : Clean l) : COMMA ∉ l := fun hm => (h _ hm).2.2 rfl
+theorem Clean.no_star {l : Bytes} (h : Clean l) : STAR ∉ l := fun hm => (h _ hm).2.1 rfl
+theorem Clean.ascii {l : Bytes} (h : Clean l) : isAscii l = true := by
+  unfold isAscii
+  exact List.all_eq_true.mpr fun b hb => by simpa using (h b hb).1
+
+theorem BodyOK.append {a b : Bytes} (ha : BodyOK a) (hb : BodyOK b) : BodyOK (a ++ b) := by
+  intro x hx
+  rcases List.mem_append.mp hx with h | h
+  · exact ha x h
+  · exact hb x h
+
+theorem bodyOK_comma : BodyOK [COMMA] := by
+  intro b hb
+  have : b = COMMA := by simpa using hb
+  subst this; decide
+
+theorem clean_of_all (p : Nat → Bool) (hp : ∀ c, p c = true → c < 128 ∧ c ≠ STAR ∧ c ≠ COMMA)
+    (l : Bytes) (h : l.all p = true) : Clean l :=
+  fun b hb => hp b (List.all_eq_true.mp h b hb)
+
+theorem clean_natToDec (n : Nat) (h : n ≤ 100) : Clean (natToDec n) :=
+  fun b hb => isDigit_clean b (natToDec_digits n h b hb)
+
+theorem strip_std (d : Byte) (body : Bytes) (x : Nat) (hd : isSpace d = false) :
+    strip ([d] ++ body ++ [STAR] ++ hex2 x) = [d] ++ body ++ [STAR] ++ hex2 x := by
+  apply strip_id
+  · intro b hb'
+    have : b = d := by simpa using hb'.symm
+    rw [this]; exact hd
+  · intro b hb'
+    have hm : b ∈ hex2 x := by
+      have hl : [d] ++ body ++ [STAR] ++ hex2 x
+          = ([d] ++ body ++ [STAR] ++ [hexDigitUpper (x / 16 % 16)]) ++ [hexDigitUpper (x % 16)] := by
+        simp [hex2]
+      rw [hl, List.getLast?_concat] at hb'
+      simp [hex2, ← Option.some.inj hb']
+    exact (hex2_clean x b hm).2.2
 
 /-- **parse ∘ render.** For every well-formed fragment description the factory returns exactly the
 expected sentence object: every carrier field read back as written, the checksum flag true, the
@@ -33,12 +226,209 @@ payload de-armored with the given fill-bit count. -/
 theorem produce_renderFrag (k : NmeaConsts) (f : FragSpec) (hok : FragOK k f = true)
     (bits : Bits) (hb : dearmor f.chunk f.fill = .ok bits) :
     produce k (renderFrag f) = .ok (expectedSentence f bits) := by
-  sorry
+  simp only [FragOK, Bool.and_eq_true, Bool.or_eq_true, beq_iff_eq, decide_eq_true_eq,
+    and_assoc] at hok
+  obtain ⟨htl, hta, hkind, hc1, hc2, hc3, hn1, hn2, hn3, hseq, hchan, hchunk, hlen, hfill⟩ := hok
+  -- the pieces contain no `,`, no `*`, and are 7-bit
+  have cTalker : Clean f.talker := clean_of_all _ isAlnum_clean _ hta
+  have cKind : Clean f.kind := by
+    rcases hkind with h | h
+    · rw [h, strBytes_VDM]; unfold Clean; decide
+    · rw [h, strBytes_VDO]; unfold Clean; decide
+  have cCnt : Clean (natToDec f.cnt) := clean_natToDec _ hc3
+  have cNum : Clean (natToDec f.num) := clean_natToDec _ hn3
+  have cFill : Clean (natToDec f.fill) := clean_natToDec _ (by omega)
+  have cChan : Clean f.chan := clean_of_all _ isAlnum_clean _ hchan
+  have cChunk : Clean f.chunk := clean_of_all _ isArmorChar_clean _ hchunk
+  have cSeq : Clean (seqBytes f.seq) := by
+    cases hs : f.seq with
+    | none => intro b hb; simp [seqBytes] at hb
+    | some n =>
+      rw [hs] at hseq
+      exact clean_natToDec n (by simp at hseq; omega)
+  have hbody : BodyOK (fragBody f) := by
+    unfold fragBody
+    repeat' apply BodyOK.append
+    all_goals first | exact bodyOK_comma | exact Clean.bodyOK (by assumption)
+  have hstar : STAR ∉ fragBody f := fun hm => (hbody _ hm).2 rfl
+  have hx : xorAll (fragBody f) < 256 := xorAll_lt _ fun b hb => by have := (hbody b hb).1; omega
+  have hhexS : STAR ∉ hex2 (xorAll (fragBody f)) := fun hm => (hex2_clean _ _ hm).1 rfl
+  have hhexC : COMMA ∉ hex2 (xorAll (fragBody f)) := fun hm => (hex2_clean _ _ hm).2.1 rfl
+  have hlastC : COMMA ∉ natToDec f.fill ++ [STAR] ++ hex2 (xorAll (fragBody f)) := by
+    intro hm
+    rcases List.mem_append.mp hm with hm | hm
+    · rcases List.mem_append.mp hm with hm | hm
+      · exact cFill.no_comma hm
+      · simp [STAR, COMMA] at hm
+    · exact hhexC hm
+  have hheadC : COMMA ∉ 33 :: (f.talker ++ f.kind) := by
+    intro hm
+    rcases List.mem_cons.mp hm with hm | hm
+    · simp [COMMA] at hm
+    · rcases List.mem_append.mp hm with hm | hm
+      · exact cTalker.no_comma hm
+      · exact cKind.no_comma hm
+  have hsplit : split COMMA (renderFrag f) = (33 :: (f.talker ++ f.kind)) ::
+      ([natToDec f.cnt, natToDec f.num, seqBytes f.seq, f.chan, f.chunk] ++
+        [natToDec f.fill ++ [STAR] ++ hex2 (xorAll (fragBody f))]) := by
+    rw [renderFrag_eq, split_seven _ _ _ _ _ _ _ hheadC cCnt.no_comma cNum.no_comma cSeq.no_comma
+      cChan.no_comma cChunk.no_comma hlastC]
+    rfl
+  have hslice : slice (33 :: (f.talker ++ f.kind)) 1 3 = f.talker := by
+    show (f.talker ++ f.kind).take 2 = f.talker
+    exact List.take_left' htl
+  have hdrop : (33 :: (f.talker ++ f.kind)).drop 3 = f.kind := by
+    show (f.talker ++ f.kind).drop 2 = f.kind
+    exact List.drop_left' htl
+  have hchk : chkToInt (natToDec f.fill ++ [STAR] ++ hex2 (xorAll (fragBody f)))
+      = ((f.fill : Int), (xorAll (fragBody f) : Int)) :=
+    chkToInt_eq _ _ _ _ cFill.no_star hhexS (pyInt10_natToDec _ (by omega)) (pyInt16_hex2 _ hx)
+  have hcs : computeChecksum (renderFrag f) = .ok (xorAll (fragBody f)) := by
+    have hne : (fragBody f).isEmpty = false := by
+      have : COMMA ∈ fragBody f := by simp [fragBody]
+      cases hfb : fragBody f with
+      | nil => rw [hfb] at this; simp at this
+      | cons _ _ => rfl
+    unfold computeChecksum renderFrag
+    rw [checksumBody_eq _ _ _ hstar]
+    simp [hne]
+  have h0 := nmeaInit_of_split (renderFrag f) _ _ _ _ _ _ hsplit (by rw [hslice]; exact cTalker.ascii)
+    (by rw [hdrop]; exact cKind.ascii) hchk hcs
+  simp only [hslice, hdrop, beq_self_eq_true] at h0
+  have hsq : (seqBytes f.seq = [] ∧ f.seq.map Int.ofNat = none) ∨
+      (seqBytes f.seq ≠ [] ∧ ∃ i, pyInt10 (seqBytes f.seq) = some i ∧ f.seq.map Int.ofNat = some i) := by
+    cases hs : f.seq with
+    | none => exact Or.inl ⟨rfl, rfl⟩
+    | some n =>
+      rw [hs] at hseq
+      exact Or.inr ⟨natToDec_ne_nil n, n, pyInt10_natToDec n (by simp at hseq; omega), rfl⟩
+  have h1 := aisInit_of_nmea k (renderFrag f) _ _ _ _ _ _ f.cnt f.num _ bits h0 rfl
+    (pyInt10_natToDec _ hc3) (pyInt10_natToDec _ hn3) hsq cChan.ascii hlen hc1 hc2 hn1 hn2 hb
+  have hcode : upper ((33 :: (f.talker ++ f.kind)).drop 3) = strBytes "VDM" ∨
+      upper ((33 :: (f.talker ++ f.kind)).drop 3) = strBytes "VDO" := by
+    rw [hdrop]
+    rcases hkind with h | h
+    · left; rw [h]; decide
+    · right; rw [h]; decide
+  have h2 := (produceRaw_ais k (renderFrag f) _ _ hsplit hcode).trans h1
+  have hpp : preProcess (renderFrag f) = .ok (renderFrag f, none) :=
+    preProcess_plain _ 33 (fragBody f ++ [STAR] ++ hex2 (xorAll (fragBody f))) (by simp [renderFrag])
+      (by decide) (strip_std 33 _ _ (by decide))
+  rw [produce_of_plain k _ _ (by simp [renderFrag]) hpp h2]
+  rfl
+
+/-! ## trailing whitespace -/
+
+theorem dropWhile_eq_nil_of_all (p : Nat → Bool) (l : List Nat) (h : l.all p = true) :
+    l.dropWhile p = [] := by
+  induction l with
+  | nil => rfl
+  | cons x xs ih =>
+    simp only [List.all_cons, Bool.and_eq_true] at h
+    rw [List.dropWhile_cons_of_pos h.1, ih h.2]
+
+theorem all_of_dropWhile_eq_nil (p : Nat → Bool) (l : List Nat) (h : l.dropWhile p = []) :
+    l.all p = true := by
+  induction l with
+  | nil => rfl
+  | cons x xs ih =>
+    by_cases hx : p x = true
+    · rw [List.dropWhile_cons_of_pos hx] at h
+      simp [hx, ih h]
+    · rw [List.dropWhile_cons_of_neg hx] at h
+      cases h
+
+theorem rstrip_nil : rstrip [] = [] := rfl
+
+theorem rstrip_append_space (s t : Bytes) (ht : t.all isSpace = true) : rstrip (s ++ t) = rstrip s := by
+  unfold rstrip
+  rw [List.reverse_append, List.dropWhile_append,
+    dropWhile_eq_nil_of_all _ _ (by simpa using ht)]
+  simp
+
+theorem strip_append_space (s t : Bytes) (ht : t.all isSpace = true) : strip (s ++ t) = strip s := by
+  unfold strip lstrip
+  rw [List.dropWhile_append]
+  split
+  · rename_i h
+    have h' : s.dropWhile isSpace = [] := by simpa using h
+    rw [h', dropWhile_eq_nil_of_all _ _ ht]
+  · exact rstrip_append_space _ _ ht
+
+theorem strip_space (t : Bytes) (ht : t.all isSpace = true) : strip t = [] := by
+  have := strip_append_space [] t ht
+  simpa [strip, lstrip, rstrip] using this
+
+theorem preProcess_congr (a b : Bytes) (h : strip a = strip b) : preProcess a = preProcess b := by
+  unfold preProcess
+  rw [h]
 
 /-- trailing CR/LF/blanks do not matter -/
 theorem produce_trailer (k : NmeaConsts) (line trailer : Bytes) (ht : trailer.all isSpace = true) :
     produce k (line ++ trailer) = produce k line := by
-  sorry
+  have hpp := preProcess_congr _ _ (strip_append_space line trailer ht)
+  cases line with
+  | nil =>
+    cases trailer with
+    | nil => rfl
+    | cons t ts =>
+      have : preProcess (t :: ts) = .error .indexError := by
+        unfold preProcess
+        rw [strip_space _ ht]
+      unfold produce
+      simp [this, bind, Except.bind, Err.isLibrary]
+  | cons b bs =>
+    unfold produce
+    rw [hpp]
+    simp
+
+/-! ## leading tag block -/
+
+/-- `rstrip` keeps a leading non-blank byte -/
+theorem rstrip_cons_of_not_space (b : Byte) (l : Bytes) (hb : isSpace b = false) :
+    rstrip (b :: l) = b :: rstrip l := by
+  unfold rstrip
+  rw [List.reverse_cons, List.dropWhile_append]
+  split
+  · rename_i h
+    have h' : l.reverse.dropWhile isSpace = [] := by simpa using h
+    rw [h', List.dropWhile_cons_of_neg (by simp [hb])]
+    simp
+  · simp
+
+theorem rstrip_cons_of_ne_nil (x : Byte) (l : Bytes) (h : rstrip l ≠ []) :
+    rstrip (x :: l) = x :: rstrip l := by
+  unfold rstrip at *
+  rw [List.reverse_cons, List.dropWhile_append]
+  split
+  · rename_i h'
+    have h'' : l.reverse.dropWhile isSpace = [] := by simpa using h'
+    rw [h''] at h
+    simp at h
+  · simp
+
+theorem rstrip_append_of_ne_nil (a l : Bytes) (h : rstrip l ≠ []) :
+    rstrip (a ++ l) = a ++ rstrip l := by
+  induction a with
+  | nil => rfl
+  | cons x xs ih =>
+    rw [List.cons_append, rstrip_cons_of_ne_nil _ _ (by rw [ih]; simp [h]), ih]
+    rfl
+
+theorem find_of_not_mem (sep : Byte) (tb r : Bytes) (h : sep ∉ tb) :
+    find sep (tb ++ sep :: r) = tb.length := by
+  induction tb with
+  | nil => simp [find, List.findIdx?_cons]
+  | cons x xs ih =>
+    have hx : x ≠ sep := fun e => h (by simp [e])
+    have hxs : sep ∉ xs := fun e => h (by simp [e])
+    have ih' := ih hxs
+    unfold find at ih' ⊢
+    rw [List.cons_append, List.findIdx?_cons]
+    simp only [beq_iff_eq, hx, if_false]
+    cases hf : List.findIdx? (fun x => x == sep) (xs ++ sep :: r) with
+    | none => rw [hf] at ih'; simp at ih'
+    | some i => rw [hf] at ih'; simp at ih' ⊢; omega
 
 /-- **A leading tag block never alters the sentence**: for a backslash-free, non-empty tag block
 `tb` and a line without leading whitespace that does not itself start with a backslash, the factory
@@ -49,6 +439,54 @@ theorem produce_tagblock (k : NmeaConsts) (tb line : Bytes) (htb : BACKSLASH ∉
       (match produce k line with
        | .ok s => .ok { s with tagBlock := some tb }
        | .error e => .error e) := by
-  sorry
+  obtain ⟨b, rest, rfl⟩ : ∃ b rest, line = b :: rest := by
+    cases line with
+    | nil => exact absurd rfl hne
+    | cons b rest => exact ⟨b, rest, rfl⟩
+  obtain ⟨hbs, hb92⟩ := hline b rfl
+  have hR : rstrip (b :: rest) = b :: rstrip rest := rstrip_cons_of_not_space b rest hbs
+  -- the bare line
+  have hstripR : strip (b :: rest) = b :: rstrip rest := by
+    unfold strip lstrip
+    rw [List.dropWhile_cons_of_neg (by simp [hbs]), hR]
+  have hppR : preProcess (b :: rest) = .ok (b :: rstrip rest, none) := by
+    unfold preProcess
+    rw [hstripR]
+    simp [hb92]
+  -- the line with tag block
+  have hstripL : strip ([BACKSLASH] ++ tb ++ [BACKSLASH] ++ b :: rest)
+      = BACKSLASH :: (tb ++ BACKSLASH :: b :: rstrip rest) := by
+    have e : [BACKSLASH] ++ tb ++ [BACKSLASH] ++ b :: rest
+        = (BACKSLASH :: (tb ++ [BACKSLASH])) ++ (b :: rest) := by simp
+    unfold strip lstrip
+    rw [e, List.cons_append, List.dropWhile_cons_of_neg (by decide), ← List.cons_append,
+      rstrip_append_of_ne_nil _ _ (by rw [hR]; simp), hR]
+    simp
+  have hppL : preProcess ([BACKSLASH] ++ tb ++ [BACKSLASH] ++ b :: rest)
+      = .ok (b :: rstrip rest, some tb) := by
+    unfold preProcess
+    rw [hstripL]
+    simp only [if_true]
+    rw [find_of_not_mem _ _ _ htb]
+    have e1 : ((tb.length : Int) + 1).toNat = tb.length + 1 := by omega
+    rw [e1]
+    have e2 : (BACKSLASH :: (tb ++ BACKSLASH :: b :: rstrip rest)).drop (tb.length + 1 + 1)
+        = b :: rstrip rest := by
+      simp
+    have e3 : slice (BACKSLASH :: (tb ++ BACKSLASH :: b :: rstrip rest)) 1 (tb.length + 1) = tb := by
+      simp [slice]
+    rw [e2, e3]
+  have htbE : tb.isEmpty = false := by
+    cases tb with
+    | nil => exact absurd rfl htb0
+    | cons _ _ => rfl
+  unfold produce
+  rw [hppL, hppR]
+  have hne1 : ([BACKSLASH] ++ tb ++ [BACKSLASH] ++ b :: rest).isEmpty = false := by simp
+  rw [hne1]
+  simp only [List.isEmpty_cons, bind, Except.bind, htbE, Bool.false_eq_true, if_false]
+  cases produceRaw k (b :: rstrip rest) with
+  | error e => simp only []; split <;> rfl
+  | ok s => rfl
 
 end Model
